@@ -23,6 +23,7 @@ import os
 import pickle
 import random
 import re
+import shutil
 import time
 from concurrent.futures import ThreadPoolExecutor
 
@@ -83,7 +84,7 @@ def write_cfg(name, vals=("1", "2"), flavours=ALL_FLAVOURS, templates=ALL_TEMPLA
              "  HowSet = %s" % tla_set(hows), "  HowDel = %s" % tla_set(howdel), "  Emit = %s" % ("TRUE" if emit else "FALSE"),
              "  MaxLevel = %d" % maxlevel, extra_const, "SPECIFICATION %s" % spec]
     if view:
-        lines.append("VIEW View")
+        lines.append("VIEW %s" % (view if isinstance(view, str) else "View"))
     for i in invariants:
         lines.append("INVARIANT %s" % i)
     for p in properties:
@@ -104,24 +105,25 @@ def tlc_run(module, cfg, **kw):
 # ------------------------------------------------------------------------------------------------------
 # the invalidation relation of the real code, per world
 def probe_hits(runner, wid):
-    """Which components' entries does FlowIRConcrete.invalidate_cache_for_component(c) remove?  Observed on the real code."""
+    """Which components' entries does FlowIRConcrete.invalidate_cache_for_component(c) remove?  Observed on the real code
+    with one dummy entry per (component, platform) under the documented key component:<platform>:stage<i>:<name>."""
     w = runner.world(wid)
     code = "1" + U * (1 + 2 * len(w.stage_seq)) + "|P-L-P-L-|0000|N"
     hits, errors = {}, {}
     for l in w.labels:
-        live = L.Live(runner.FL, runner.CONF, w, code, "default", runner.conf_pool)
+        conc = runner.FL.FlowIRConcrete(w.render(code), "default", {})
+        keys = {}
         for l2 in w.labels:
             for p in L.PLATS:
-                live.query(l2, p, "full", 2)
-        before = set(live.cache_keys().values())
-        if len(before) != 4:
-            raise MachineryError("world %s: could not populate the cache (%s)" % (wid, before))
+                k = "component:%s:stage%s:%s" % ((p,) + w.cid[l2])
+                conc._cache[k] = {}
+                keys[k] = l2
         try:
-            live.concrete.invalidate_cache_for_component(w.cid[l])
+            conc.invalidate_cache_for_component(w.cid[l])
         except Exception as e:
             errors[l] = type(e).__name__
-        after = set(live.cache_keys().values())
-        hits[l] = {x for x in w.labels if not any(k[0] == x for k in after)}
+        left = {keys[k] for k in conc._cache.keys() if k in keys}
+        hits[l] = {x for x in w.labels if x not in left}
     return hits, errors
 
 
@@ -283,7 +285,7 @@ def execute(chk, rid, stats, nproc=14):
         for f in agg["findings"]:
             if f["kind"] == "violation":
                 st["violations"] += 1
-                chk.violation(f["key"], f["what"], f["replay"])
+                stats.setdefault("_findings", []).append((f["key"], f["what"], f["replay"]))
             else:
                 stats.setdefault("_drift", []).append((world, f["key"], f["what"]))
         if agg["ndrift"]:
@@ -510,22 +512,25 @@ def design_runs(chk, tier):
     write_module("ConfigCache_exact", (0, 0), exact)
     write_module("ConfigCache_twostage", (0, 1), exact)
     write_module("ConfigCache_noself", (0, 0), noself)
-    api = dict(hows=("api",), howdel=("api",))
+    # the call paths (`how`) only differ in `last`, and `handed` only enables MutateReturned (which changes nothing): the design
+    # runs use one call path and the view <<D, cache>>
+    api = dict(hows=("api",), howdel=("api",), view="DesignView")
+    cached = ("full", "lenient", "raw")
     jobs = []   # (label, module, cfg, expect_violation, workers, coverage)
     if tier == "quick":
-        jobs.append(("over-hit, T2/T5", "ConfigCache_over", write_cfg("CC_d1_q", vals=("1",), templates=("T2", "T5"), **api), None, 8, True))
-        jobs.append(("exact, T4", "ConfigCache_exact", write_cfg("CC_d2_q", vals=("1",), templates=("T4",), **api), None, 4, False))
-        jobs.append(("two stages, T2", "ConfigCache_twostage", write_cfg("CC_d3_q", vals=("1",), templates=("T2",), flavours=("full", "raw", "nodef", "lenient"), **api), None, 4, False))
+        jobs.append(("over-hit, T2/T5", "ConfigCache_over", write_cfg("CC_d1_q", vals=("1",), templates=("T2", "T5"), flavours=cached, **api), None, 8, True))
+        jobs.append(("exact, T4", "ConfigCache_exact", write_cfg("CC_d2_q", vals=("1",), templates=("T4",), flavours=ALL_FLAVOURS, **api), None, 8, False))
+        jobs.append(("two stages, no templates", "ConfigCache_twostage", write_cfg("CC_d3_q", vals=("1",), templates=(), flavours=cached, **api), None, 8, False))
     else:
         jobs.append(("over-hit, all templates", "ConfigCache_over", write_cfg("CC_d1_t", vals=("1",), **api), None, 16, True))
-        jobs.append(("exact, two values, T2", "ConfigCache_exact", write_cfg("CC_d2_t", vals=("1", "2"), templates=("T2",), **api), None, 16, False))
-        jobs.append(("two stages, T2/T5", "ConfigCache_twostage", write_cfg("CC_d3_t", vals=("1",), templates=("T2", "T5"), **api), None, 16, False))
+        jobs.append(("exact, two values, T2", "ConfigCache_exact", write_cfg("CC_d2_t", vals=("1", "2"), templates=("T2",), flavours=cached, **api), None, 16, False))
+        jobs.append(("two stages, T2/T5", "ConfigCache_twostage", write_cfg("CC_d3_t", vals=("1",), templates=("T2", "T5"), flavours=cached, **api), None, 16, False))
     # expected-to-fail models: the two deviations of the code, and the vacuity witnesses
     jobs.append(("deviation LenientPoisons", "ConfigCache_exact", write_cfg("CC_x1", vals=("1",), templates=("T5",), lenient_poisons=True, **api), "QueryFresh|Coherent", 2, False))
     jobs.append(("deviation Hits without self-hit", "ConfigCache_noself", write_cfg("CC_x2", vals=("1", "2"), templates=("T2",), **api), "QueryFresh|Coherent", 2, False))
     for wname in ("NeverHit", "NeverErrQuery", "NeverFull"):
         jobs.append(("witness " + wname, "ConfigCache_exact", write_cfg("CC_w_" + wname, vals=("1",), templates=("T2",), view=False,
-                                                                       invariants=(wname,), properties=(), **api), wname, 2, False))
+                                                                       invariants=(wname,), properties=(), hows=("api",), howdel=("api",)), wname, 2, False))
     out = []
     sequential = [j for j in jobs if j[3] is None]
     parallel = [j for j in jobs if j[3] is not None]
@@ -617,8 +622,8 @@ def trace_verdicts(chk, runner, world, base, base_code, traces, r, stats):
         fs = res["known"] + ([res["finding"]] if res["finding"] else [])
         for f in fs:
             if f["kind"] == "violation":
-                stats[world]["violations"] = stats.setdefault(world, {}).get("violations", 0) + 1
-                chk.violation(f["key"], "recorded history rejected by TLC at step %d: %s" % (upto, f["what"]), f["replay"])
+                stats[world]["violations"] += 1
+                stats.setdefault("_findings", []).append((f["key"], "recorded history rejected by TLC at step %d: %s" % (upto, f["what"]), f["replay"]))
             else:
                 stats.setdefault("_drift", []).append((world, f["key"], f["what"]))
         if not fs:
@@ -648,6 +653,7 @@ def run_check(tier):
         if _POOL is not None:
             _POOL.terminate()
             _POOL = None
+        shutil.rmtree(chk.scratch, ignore_errors=True)
 
 
 def _run_check(chk, tier, thorough, runner, sd):
@@ -671,8 +677,8 @@ def _run_check(chk, tier, thorough, runner, sd):
     small = dict(flavours=("full", "raw", "lenient"), templates=("T2", "T5"))
     plan = []   # (world, base, maxlevel, tag, consts)
     if not thorough:
-        plan += [("prefix", 0, 3, "full", {}), ("prefix", 1, 3, "small", small), ("prefix", 2, 3, "small", small),
-                 ("stage", 0, 3, "small", small), ("dot", 0, 3, "small", dict(small, hows=("api", "ref"), howdel=("api",))),
+        plan += [("prefix", 0, 3, "full", dict(flavours=("full", "raw", "lenient"))), ("prefix", 1, 3, "small", small), ("prefix", 2, 3, "small", small),
+                 ("stage", 0, 3, "small", dict(small, hows=("api", "ref"), howdel=("api",))), ("dot", 0, 3, "small", dict(small, hows=("api", "ref"), howdel=("api",))),
                  ("loop", 1, 3, "small", dict(small, hows=("conf",), howdel=("conf",))),
                  ("plus", 0, 3, "small", dict(small, hows=("api",), howdel=("api",))), ("paren", 0, 2, "small", small)]
         sim_worlds, (nsim, depth) = ("prefix", "stage"), (60, 40)
@@ -753,6 +759,15 @@ def _run_check(chk, tier, thorough, runner, sd):
         phase("selftest")
         design = design_future.result()
         phase("design")
+    # report: violations outside the named deviations of the code first (only the first 20 are printed, the first 50 get a replay file)
+    findings = stats.pop("_findings", [])
+    findings.sort(key=lambda f: f[0] in KNOWN_DEVIATION_KEYS)
+    hist = {}
+    for key, what, rp in findings:
+        hist[key] = hist.get(key, 0) + 1
+        if hist[key] <= 25 or key not in KNOWN_DEVIATION_KEYS:
+            chk.violation(key, what, rp)
+    chk.cov["violation_keys"] = hist
     # verdict on model drift
     drift = stats.pop("_drift", [])
     keydrift = stats.pop("_keydrift", [])
@@ -779,7 +794,7 @@ def _run_check(chk, tier, thorough, runner, sd):
     ]
     if drift or faithful:
         msgs = ["%s: %s: %s" % d for d in drift[:5]] + ["%s: %s" % (d[0], d[1]["what"]) for d in faithful[:5]]
-        if not chk.violations:
+        if not chk.violations:          # (violations listed in known_findings.json do not excuse a drift)
             chk.finish()
             raise MachineryError("model drift (spec and code disagree without a property violation), %d+%d cases:\n  %s"
                                  % (len(drift), len(faithful), "\n  ".join(msgs)))
@@ -805,12 +820,15 @@ def run(tier):
 def replay(path):
     d = json.load(open(path))
     chk = Check(PID, "quick")
+    chk.replay_dir = os.path.join(chk.replay_dir, "replayed")      # do not overwrite the recorded cases
+    os.makedirs(chk.replay_dir, exist_ok=True)
     rp = d["replay"]
     res = _runner().run_walk(rp["world"], rp["active"], rp["init"], rp["steps"], widx=rp.get("widx", 0))
-    f = res["finding"]
-    if f and f["kind"] == "violation":
-        chk.violation(f["key"], f["what"], f["replay"])
-    elif f:
-        print("model drift while replaying: %s" % f["what"])
+    for f in res["known"] + ([res["finding"]] if res["finding"] else []):
+        if f["kind"] == "violation":
+            chk.violation(f["key"], f["what"], f["replay"])
+        else:
+            print("model drift while replaying: %s" % f["what"])
     chk.evaluated(("replay", path), n=res["executed"])
+    chk.trace_validated(1)
     return chk.finish()
